@@ -314,6 +314,9 @@ func solverSpecs() []solverSpec {
 		{"cvc5-1.0.3-intblast", func(f string, t, seed int) []string {
 			return []string{"cvc5", "--solve-bv-as-int=sum", fmt.Sprintf("--tlimit=%d", t*1000), fmt.Sprintf("--seed=%d", seed), f}
 		}, "(set-option :produce-models true)\n(set-logic ALL)\n", nil},
+		// (z3's own int-blasting mode, smt.bv.solver=2, is NOT used: z3 5.1.0
+		// answered unsat with it on cover queries that z3, z3 4.8.12 and cvc5
+		// all find satisfiable)
 		// z3 with an explicit bit-blasting pipeline (quantifier-free goals only;
 		// anything else makes the tactic fail, which counts as "no answer")
 		{"z3-5.1.0-bitblast", func(f string, t, seed int) []string {
